@@ -1854,7 +1854,9 @@ class Rule(metaclass=LogicalType):
             with context.enter(route=i) as item_context:
                 try:
                     item_context.transformer(item, cls.contains)
-                except (TypeError, ValueError):
+                except Exception:  # noqa
+                    # an item that does not convert is an item that is not contained, whatever the conversion
+                    # raised (int('inf') raises OverflowError, Decimal('x') decimal.InvalidOperation)
                     pass
                 else:
                     contains += 1
